@@ -54,16 +54,32 @@ def missingBytes : Bytes := [109, 105, 115, 115, 105, 110, 103]
 def missingTy : Ty := .error (.prim 25)
 def missingVal : Val := .prim missingBytes
 
+/-- a `named` / `error` type wrapper (a projection passes through them). -/
+inductive TWrap where
+  | named (name : Bytes)
+  | error
+  deriving Repr, DecidableEq
+
+def Ty.peel : Ty → List TWrap × Ty
+  | .named n t => let (ws, c) := t.peel; (.named n :: ws, c)
+  | .error t => let (ws, c) := t.peel; (.error :: ws, c)
+  | t => ([], t)
+
+def Ty.rewrap : List TWrap → Ty → Ty
+  | [], t => t
+  | .named n :: ws, t => .named n (Ty.rewrap ws t)
+  | .error :: ws, t => .error (Ty.rewrap ws t)
+
 mutual
 /-- type of the projection of a value of type `t`. -/
 def projTy : Proj → Ty → Ty
   | .all, t => t
-  | .fields fs, .record rfs => .record (projFieldTys fs rfs)
-  | .fields fs, .named n t => .named n (projTy (.fields fs) t)
-  | .fields fs, .error t => .error (projTy (.fields fs) t)
-  | .fields _, .prim _ => missingTy
-  | .fields _, .enum _ => missingTy
-  | .fields _, t => t                      -- arrays, sets, maps, unions: always whole
+  | .fields fs, t =>
+    Ty.rewrap t.peel.1 (match t.peel.2 with
+      | .record rfs => .record (projFieldTys fs rfs)
+      | .prim _ => missingTy
+      | .enum _ => missingTy
+      | c => c)                              -- arrays, sets, maps, unions: always whole
 def projFieldTys : PFields → Fields → Fields
   | .nil, _ => .nil
   | .cons a p rest, rfs =>
@@ -73,18 +89,19 @@ def projFieldTys : PFields → Fields → Fields
 end
 
 mutual
-/-- the data of `v : t` at the projected paths. -/
+/-- the data of `v : t` at the projected paths (named and error wrappers are transparent
+    for bodies). -/
 def projVal : Proj → Ty → Val → Val
   | .all, _, v => v
-  | .fields fs, .record rfs, v =>
-    match v with
-    | .cont xs => .cont (Vals.ofList (projFieldVals fs rfs xs.toList))
-    | _ => .null
-  | .fields fs, .named _ t, v => projVal (.fields fs) t v
-  | .fields fs, .error t, v => projVal (.fields fs) t v
-  | .fields _, .prim _, _ => missingVal
-  | .fields _, .enum _, _ => missingVal
-  | .fields _, _, v => v
+  | .fields fs, t, v =>
+    match t.peel.2 with
+    | .record rfs =>
+      (match v with
+        | .cont xs => .cont (Vals.ofList (projFieldVals fs rfs xs.toList))
+        | _ => .null)
+    | .prim _ => missingVal
+    | .enum _ => missingVal
+    | _ => v
 def projFieldVals : PFields → Fields → List Val → List Val
   | .nil, _, _ => []
   | .cons a p rest, rfs, items =>
